@@ -434,6 +434,44 @@ func init() {
 			return "pass", fails
 		})
 	}
+	// !decSafeBreaks <codec> <chars> <breaks>: <chars> alphabet characters with <breaks> CR/LF bytes spread through
+	// them; the documented limit counts every byte of the input, line breaks included
+	reg("!decSafeBreaks", func(a []string) (string, []Fail) {
+		chars, breaks := atoi(a[1]), atoi(a[2])
+		var c baseCodec
+		var max int
+		var safe func(string) ([]byte, error)
+		switch a[0] {
+		case "b32":
+			c, max, safe = codec32, b32.MAX_DECODE_SIZE, b32.DecodeStringSafe
+		case "b32nopad":
+			c, max, safe = codec32NoPad, b32.MAX_DECODE_SIZE, b32.DecodeStringSafeNoPadding
+		default:
+			c, max, safe = codec64, b64.MAX_DECODE_SIZE, b64.DecodeStringSafe
+		}
+		body := (baseCodec{c.name, c.alpha, c.k, c.quantum, false}).refEncode(patternBytes(chars*c.k/8 + 1))[:chars]
+		var sb strings.Builder
+		sb.Grow(chars + breaks)
+		step := chars/(breaks+1) + 1
+		put := 0
+		for i := 0; i < chars; i += step {
+			end := i + step
+			if end > chars {
+				end = chars
+			}
+			sb.WriteString(body[i:end])
+			if put < breaks {
+				sb.WriteByte("\n\r"[put%2])
+				put++
+			}
+		}
+		for ; put < breaks; put++ {
+			sb.WriteByte('\n')
+		}
+		s := sb.String()
+		_, err := safe(s)
+		return "len=" + itoa(len(s)) + " " + baseErrTag(err), checkGuard(a[0]+".DecodeStringSafe(with line breaks)", len(s), max, err)
+	})
 	decLen("b32decSafeLen", codec32, b32.MAX_DECODE_SIZE, b32.DecodeStringSafe, b32.DecodeString)
 	decLen("b32decSafeNoPadLen", codec32NoPad, b32.MAX_DECODE_SIZE, b32.DecodeStringSafeNoPadding, b32.DecodeStringNoPadding)
 	decLen("b64decSafeLen", codec64, b64.MAX_DECODE_SIZE, b64.DecodeStringSafe, b64.DecodeString)
